@@ -334,3 +334,42 @@ package store
 //@   ensures view: forall k int :: DView(as(result, *DenseStore), k) == DView(as(s, *DenseStore), k)
 //@   hint ASumShift(contents(s.bins), contents(bins), 0, len(s.bins), 0)
 
+
+// weight of o strictly above the edge e
+//@ fun CHAbove(o *DenseStore, e int) real := ASum(contents(o.bins), min(o.maxIndex + 1, max(e + 1, o.minIndex)) - o.offset, o.maxIndex - o.offset + 1)
+
+//@ func CollapsingHighestDenseStore.MergeWith
+//@   serves C05 C02
+//@   requires CHInv(s) && SInv(other) && disjoint(s, other)
+//@   ensures CHInv(s) && SInv(other) && s.maxNumBins == old(s.maxNumBins)
+//@   ensures total: s.count == old(s.count) + old(STot(other))
+//@   ensures arg: STot(other) == old(STot(other)) && (forall k int :: SView(other, k) == old(SView(other, k)))
+//@   ensures same-kind: is(other, *CollapsingHighestDenseStore) && old(STot(other)) > 0.0 ==> (forall k int :: DView(as(s, *DenseStore), k) == DFoldHighOld(as(s, *DenseStore), s.maxIndex, k) + DFoldHighOf(as(other, *DenseStore), s.maxIndex, k))
+//@   ensures edge: is(other, *CollapsingHighestDenseStore) && old(STot(other)) > 0.0 ==> s.minIndex == min(old(s.minIndex), as(other, *DenseStore).minIndex) && s.maxIndex == min(max(old(s.maxIndex), as(other, *DenseStore).maxIndex), s.minIndex + len(s.bins) - 1)
+//@   ensures alias: arr(s.bins) == old(arr(s.bins)) || fresh(arr(s.bins))
+//@   ensures stable: footprintStable(other)
+//@   modifies s, arr(s.bins), footprint(other)
+//@   foreach 1 invariant !stopped && CHInv(s) && SInv(other) && disjoint(s, other) && s.maxNumBins == old(s.maxNumBins) && (arr(s.bins) == old(arr(s.bins)) || fresh(arr(s.bins))) && footprintStable(other)
+//@   foreach 1 invariant s.count == old(s.count) + SetSum(old(SViewArr(other)), visited) && (forall k int :: visited[k] ==> SView(other, k) > 0.0)
+//@   foreach 1 invariant STot(other) == old(STot(other)) && (forall k int :: SView(other, k) == old(SView(other, k)))
+//@   hint SViewNonneg(other), SetSumEmpty(old(SViewArr(other))), SetSumIsTot(old(SViewArr(other)), visited), STotIsTot(other), TotExt(SViewArr(other), old(SViewArr(other))), SetSumInsert(old(SViewArr(other)), visited$pre, $cbarg0)
+//@   hint ASumZero(old(contents(s.bins)), old(DCumLo(as(s, *DenseStore), s.maxIndex)) + 1, old(len(s.bins))), ASumStepLow(old(contents(s.bins)), old(DCumLo(as(s, *DenseStore), s.maxIndex)), old(len(s.bins))), ASumEmpty(old(contents(s.bins)), old(len(s.bins)), old(len(s.bins)))
+//@   loop 1 invariant o == as(other, *CollapsingHighestDenseStore) && CHInv(o) && o.count > 0.0 && o.count == old(o.count) && (forall k int :: DView(as(o, *DenseStore), k) == old(DView(as(o, *DenseStore), k))) && footprintStable(other) && arr(s.bins) != arr(o.bins)
+//@   loop 1 invariant o.minIndex - 1 <= idx && idx <= o.maxIndex && idx >= min(o.maxIndex, s.maxIndex)
+//@   loop 1 invariant DRanges(as(s, *DenseStore)) && DNonneg(as(s, *DenseStore)) && DWindowIn(as(s, *DenseStore)) && DZeroOutside(as(s, *DenseStore)) && CHShape(s) && s.maxNumBins == old(s.maxNumBins) && s.maxNumBins >= 1 && s.maxNumBins <= 2147483647 && len(s.bins) <= s.maxNumBins && len(s.bins) >= 1 && s.count == old(s.count) && (arr(s.bins) == old(arr(s.bins)) || fresh(arr(s.bins)))
+//@   loop 1 invariant s.minIndex == min(old(s.minIndex), o.minIndex) && s.maxIndex == min(max(old(s.maxIndex), o.maxIndex), s.minIndex + len(s.bins) - 1) && s.isCollapsed == (old(s.isCollapsed) || s.maxIndex < max(o.maxIndex, old(s.maxIndex)))
+//@   loop 1 invariant DSum(as(s, *DenseStore)) == old(s.count) + ASum(contents(o.bins), idx + 1 - o.offset, o.maxIndex - o.offset + 1)
+//@   loop 1 invariant forall k int :: DView(as(s, *DenseStore), k) == DFoldHighOld(as(s, *DenseStore), s.maxIndex, k) + (k == s.maxIndex ? ASum(contents(o.bins), idx + 1 - o.offset, o.maxIndex - o.offset + 1) : 0.0)
+//@   loop 1 invariant old(s.count) > 0.0 ==> DView(as(s, *DenseStore), min(old(s.minIndex), s.maxIndex)) > 0.0
+//@   loop 2 invariant o == as(other, *CollapsingHighestDenseStore) && CHInv(o) && o.count > 0.0 && o.count == old(o.count) && (forall k int :: DView(as(o, *DenseStore), k) == old(DView(as(o, *DenseStore), k))) && footprintStable(other) && arr(s.bins) != arr(o.bins)
+//@   loop 2 invariant min(o.maxIndex, max(s.maxIndex, o.minIndex - 1)) >= idx && idx >= o.minIndex - 1 && (idx >= o.minIndex ==> idx <= s.maxIndex)
+//@   loop 2 invariant DRanges(as(s, *DenseStore)) && DNonneg(as(s, *DenseStore)) && DWindowIn(as(s, *DenseStore)) && DZeroOutside(as(s, *DenseStore)) && CHShape(s) && s.maxNumBins == old(s.maxNumBins) && s.maxNumBins >= 1 && s.maxNumBins <= 2147483647 && len(s.bins) <= s.maxNumBins && len(s.bins) >= 1 && s.count == old(s.count) && (arr(s.bins) == old(arr(s.bins)) || fresh(arr(s.bins)))
+//@   loop 2 invariant s.minIndex == min(old(s.minIndex), o.minIndex) && s.maxIndex == min(max(old(s.maxIndex), o.maxIndex), s.minIndex + len(s.bins) - 1) && s.isCollapsed == (old(s.isCollapsed) || s.maxIndex < max(o.maxIndex, old(s.maxIndex)))
+//@   loop 2 invariant DSum(as(s, *DenseStore)) == old(s.count) + ASum(contents(o.bins), idx + 1 - o.offset, o.maxIndex - o.offset + 1)
+//@   loop 2 invariant forall k int :: DView(as(s, *DenseStore), k) == DFoldHighOld(as(s, *DenseStore), s.maxIndex, k) + (k == s.maxIndex ? CHAbove(as(o, *DenseStore), s.maxIndex) : 0.0) + ((k <= s.maxIndex && k <= o.maxIndex && k > idx) ? DView(as(o, *DenseStore), k) : 0.0)
+//@   loop 2 invariant old(s.count) > 0.0 ==> DView(as(s, *DenseStore), min(old(s.minIndex), s.maxIndex)) > 0.0
+//@   hint ASumUpdate(contents(s.bins), 0, len(s.bins), len(s.bins) - 1, s.bins[len(s.bins) - 1] + o.bins[idx - o.offset]), ASumUpdate(contents(s.bins), 0, len(s.bins), idx - s.offset, s.bins[idx - s.offset] + o.bins[idx - o.offset])
+//@   hint ASumStepLow(contents(o.bins), idx - o.offset, o.maxIndex - o.offset + 1), ASumStepLow(contents(o.bins), idx + 1 - o.offset, o.maxIndex - o.offset + 1), ASumEmpty(contents(o.bins), o.maxIndex - o.offset + 1, o.maxIndex - o.offset + 1)
+//@   hint ASumWindow(contents(o.bins), 0, len(o.bins), o.minIndex - o.offset, o.maxIndex - o.offset)
+//@   hint ASumSplit(contents(o.bins), DCumLo(as(o, *DenseStore), s.maxIndex), o.maxIndex - o.offset + 1, len(o.bins)), ASumZero(contents(o.bins), o.maxIndex - o.offset + 1, len(o.bins)), ASumZero(contents(o.bins), DCumLo(as(o, *DenseStore), s.maxIndex), len(o.bins)), ASumStepLow(contents(o.bins), DCumLo(as(o, *DenseStore), s.maxIndex), o.maxIndex - o.offset + 1), ASumEmpty(contents(o.bins), len(o.bins), len(o.bins))
+//@   hint ASumSplit(contents(o.bins), DCumLo(as(o, *DenseStore), s.maxIndex), o.minIndex - o.offset, o.maxIndex - o.offset + 1), ASumZero(contents(o.bins), DCumLo(as(o, *DenseStore), s.maxIndex), o.minIndex - o.offset)
